@@ -101,6 +101,8 @@ def render(case, form):
     if name in ("push", "pop", "mov") and any(o[0] == "R" and o[1] == "sreg" for o in case["ops"]):
         return None  # LLVM picks operand sizes of its own for segment-register moves
     name = LLVM_NAME.get(name, name)
+    if form["prefix"] in ("VEX", "EVEX") and any(o[0] == "M" and any(o[1][k] and o[1][k][0] == "gp16" for k in ("base", "index")) for o in case["ops"]):
+        return None  # llvm-mc 14 does not scale disp8 of EVEX instructions with 16-bit addressing (objdump and the SDM do)
     if opts & (G.OPT_SHORT | G.OPT_LONG | G.OPT_MODMR | G.OPT_MODRM | G.OPT_REX):
         # encoding-selection hints: the decoded meaning is the same; render without them
         pass
@@ -138,14 +140,15 @@ def render(case, form):
         pre.append("rep")
     if opts & G.OPT_REPNE:
         pre.append("repne")
-    if opts & G.OPT_VEX3:
-        pre.append("{vex3}")
-    if opts & G.OPT_EVEX:
-        pre.append("{evex}")
-    if opts & G.OPT_VEX:
-        pre.append("{vex}")
+    if form["prefix"] in ("VEX", "EVEX"):
+        if opts & G.OPT_VEX3:
+            pre.append("{vex3}")
+        if opts & G.OPT_EVEX:
+            pre.append("{evex}")
+        if opts & G.OPT_VEX:
+            pre.append("{vex}")
     # implicit operands are not written in assembly text unless the mnemonic requires them
     imp = form.get("implicit") or 0
-    if imp:
-        toks = [t for i, t in enumerate(toks) if not (imp >> i) & 1]
+    if imp and len(case["ops"]) == len(form["operands"]):
+        toks = [t for i, t in enumerate(toks) if not ((imp >> i) & 1 and i < len(case["ops"]) and case["ops"][i][0] == "R")]
     return " ".join(pre + [name]) + (" " + ", ".join(toks) if toks else "")
